@@ -687,6 +687,25 @@ def gen_C17(c, rng, tier):
                 s, cl, info = rand_run(rng, fmt, kind, trace=1, calls=[1, 3, 6, 10], special_map=(kind == 'mc' and rng.random() < 0.5),
                                        value_classes=['small_int', 'zero', 'zero', 'neg', 'nan', 'frac'])
                 c.add(t, 'run', s, classes=cl, nontrivial=(kind == 'mc' or 'extreme_canonical_numbers' in cl), info=info)
+    gen_C17_many_channels(c, rng, tier)
+
+def gen_C17_many_channels(c, rng, tier):
+    """channel counts whose uniform default weights 1/n do not add up exactly, with the largest engine outputs selecting the channel:
+    the map must still be asked for an existing, enabled channel"""
+    for t in TYPES:
+        fmt = FMTS[t]
+        for _ in range(scale(tier, 8, 60)):
+            channels = rng.choice([9, 10, 11, 14, 15, 18, 21, 22, 23, 41, 49]); dims = 1
+            n = rng.choice([6, 10])
+            tops = [2 ** 64 - 1, 2 ** 64 - 2, min(2 ** 64 - 1, 2 ** 64 - 2 ** max(0, 63 - fmt.prec)), 2 ** 64 - 2 ** max(0, 64 - fmt.prec), 0, 2 ** 63]
+            raw = []
+            for i in range(n):
+                raw += [rng.getrandbits(64), rng.choice(tops)]
+            user = rng.random() < 0.4
+            chk = ['weights', toks(fmt, [fmt.round(Fraction(1, channels))] * channels), fmt.rtok(0), fmt.rtok(Fraction(1, 4))] if user else ['default', fmt.rtok(0), fmt.rtok(Fraction(1, 4))]
+            s = spec_run('mc', fmt, dims=dims, channels=channels, raw=raw, chk=chk, f=['tab', toks(fmt, [Fraction(1), Fraction(0)])],
+                         mp=rand_map_tab(rng, fmt, channels), trace=1, ops=[['run', [n]], ['dump']])
+            c.add(t, 'run', s, classes=['kind_mc', 'many_channels', 'top_raw_engine_outputs'], info={'kind': 'mc', 'dims': dims, 'channels': channels, 'calls': [n]})
 
 @prop('C19', 'VEGAS and multi-channel runs of 2-5 iterations whose adjustment data actually move the state (polynomial integrands, asymmetric grid maps), default and '
       'user grids / weights (unnormalised, with zeros), all alpha / beta / minimum weights, also resumed from text; results k and k+1 and the points drawn are '
@@ -706,6 +725,20 @@ def gen_C19(c, rng, tier):
                 elif rng.random() < 0.3:
                     s, cl3 = mpi_variant(rng, s, info); cl += cl3
                 c.add(t, 'run', s, classes=cl, info=info)
+            for _ in range(scale(tier, 4, 30)):
+                # the text of a checkpoint that has no result yet (user grid / weights, parameters that need all digits), then run
+                iters = rng.choice([2, 3])
+                # (a default VEGAS checkpoint has no grid before the first run and cannot be written: a documented precondition)
+                s, cl, info = rand_run(rng, fmt, kind, iters=iters, calls=[6, 10], poly=True, trace=1, finite_only=True, user_state=(kind == 'vegas' or rng.random() < 0.7), dists=[])
+                s = [e for e in s if e[0] != 'ops'] + [['ops', [['text'], ['reload'], ['run', info['calls']], ['dump']]]]
+                c.add(t, 'run', s, classes=cl + ['resumed_before_first_iteration'], info=info)
+            for _ in range(scale(tier, 3, 20)):
+                # run, reload, resume, roll back to the start, run again: the first iteration again samples with the user's state
+                n = rng.choice([2, 3])
+                s, cl, info = rand_run(rng, fmt, kind, iters=n, calls=[6, 10], poly=True, trace=1, finite_only=True, user_state=True, dists=[], grid_map=True)
+                calls = info['calls']
+                s = [e for e in s if e[0] != 'ops'] + [['ops', [['run', calls[:1]], ['reload'], ['run', calls[1:]], ['rollback', 0], ['run', calls], ['dump']]]]
+                c.add(t, 'run', s, classes=cl + ['reload_resume_rollback_redo'], info=info)
 
 @prop('C20', 'the same run under the four callback modes (results, generator positions, next state compared between modes and with the model); multi-channel '
       'summaries for 1-40 channels with all-equal, all-but-one-minimal and disabled-channel weight patterns: index skeleton (channel numbers, N=, ranges) '
